@@ -3,10 +3,13 @@ package main
 import (
 	"fmt"
 	"math"
+	"os"
+	"path/filepath"
 	"sort"
 	"strings"
 	"time"
 
+	"github.com/spf13/pflag"
 	"gopkg.in/yaml.v3"
 
 	"github.com/form3tech-oss/f1/v2/internal/trigger/api"
@@ -129,6 +132,50 @@ func probeTicker(interval time.Duration) string {
 
 func init() {
 	// plan <nowNs> <top> <default> <stage>…
+	// bfile <startAgoMs|-> <stages c:<ms>:<rate>|u:<ms>:<n>;…> — the `file` trigger *builder* (flags → file → ParseConfigFile →
+	// api.Trigger) on a plan that began <startAgoMs> ago: the trigger's Duration and the options it hands to the runner
+	// -> `dur=<ms> maxdur=<ms> conc=<n> maxit=<n>` | err
+	register("bfile", func(a []string) string {
+		var sb strings.Builder
+		sb.WriteString("scenario: s\nlimits:\n  max-duration: 5s\n  concurrency: 3\n  max-iterations: 7\n  ignore-dropped: true\n")
+		if a[0] != "-" {
+			fmt.Fprintf(&sb, "schedule:\n  stage-start: %s\n", time.Now().Add(-time.Duration(atoi(a[0]))*time.Millisecond).UTC().Format(time.RFC3339Nano))
+		}
+		sb.WriteString("stages:\n")
+		for _, st := range strings.Split(a[1], ";") {
+			f := strings.Split(st, ":")
+			switch f[0] {
+			case "c":
+				fmt.Fprintf(&sb, "  - mode: constant\n    duration: %sms\n    rate: %s\n    distribution: none\n", f[1], f[2])
+			case "u":
+				fmt.Fprintf(&sb, "  - mode: users\n    duration: %sms\n    concurrency: %s\n", f[1], f[2])
+			}
+		}
+		dir, err := os.MkdirTemp("", "f1verif-bfile")
+		if err != nil {
+			return "harness-tempdir"
+		}
+		defer os.RemoveAll(dir)
+		path := filepath.Join(dir, "plan.yaml")
+		if err := os.WriteFile(path, []byte(sb.String()), 0o600); err != nil {
+			return "harness-tempfile"
+		}
+		b, ok := builderOf("file")
+		if !ok {
+			return "no-builder"
+		}
+		fs := pflag.NewFlagSet("verif", pflag.ContinueOnError)
+		fs.AddFlagSet(b.Flags)
+		if err := fs.Parse([]string{path}); err != nil {
+			return "err"
+		}
+		trig, err := b.New(fs)
+		if err != nil {
+			return "err"
+		}
+		return fmt.Sprintf("dur=%d maxdur=%d conc=%d maxit=%d", trig.Duration.Milliseconds(), trig.Options.MaxDuration.Milliseconds(),
+			trig.Options.Concurrency, trig.Options.MaxIterations)
+	})
 	register("plan", func(a []string) string {
 		now := baseTime.Add(time.Duration(atoi64(a[0])))
 		top := kvs(a[1])
